@@ -145,14 +145,14 @@ theorem tensorWeights_length_trap (gs : List G1) :
   intro g _
   simp [weights, trapWeights_length]
 
-theorem tensorWeights_length_simpson (gs : List G1) (h : ∀ g ∈ gs, g.boundary = true) :
+theorem tensorWeights_length_simpson (gs : List G1) :
     (tensorWeights .simpson gs).length = (levelToNumPoints gs).prod := by
   unfold tensorWeights levelToNumPoints
   rw [List.length_map, cross_length, List.map_map]
   congr 1
   apply List.map_congr_left
-  intro g hg
-  simp [weights, simpsonWeights_length_on g (h g hg)]
+  intro g _
+  simp [weights, simpsonWeights_length g]
 
 /-- containment clause for the tensor grid -/
 theorem tensorPoints_mem (f : Family) (gs : List G1) (h : ∀ g ∈ gs, g.start ≤ g.stop) (t : List ℚ)
